@@ -371,13 +371,18 @@ func (p Parameters) NoiseBound() float64 {
 // of a fresh encryption with the public key.
 func (p Parameters) NoiseFreshPK() (std float64) {
 
-	std = float64(p.XsHammingWeight() + 1)
+	// E[||s||^2] = E[||u||^2] = N*Var(Xs) (the Hamming weight for a ternary secret)
+	norm2 := float64(p.N()) * p.xs.Std * p.xs.Std
+
+	// u*e_pk + e0 + e1*s
+	sigma := p.xe.Std
+	std = (2*norm2 + 1) * sigma * sigma
 
 	if p.RingP() != nil {
-		std *= 1 / 12.0
-	} else {
-		sigma := p.xe.Std
-		std *= sigma * sigma
+		// divided by the first prime of P (the only one a ciphertext encryption uses),
+		// plus the rounding errors r0 + r1*s of that division
+		p0 := float64(p.pi[0])
+		std = std/(p0*p0) + (norm2+1)/12.0
 	}
 
 	if p.RingType() == ring.ConjugateInvariant {
